@@ -127,6 +127,10 @@ enum Op {
     WSubscribe(usize, usize, usize),
     WClosed(usize, usize),
     WInfo(usize, usize),
+    Downgrade(usize),
+    Merge(usize),
+    Split(usize, usize),
+    OsIsClosed(usize),
 }
 
 fn parse_op(w: &str) -> Result<Op, String> {
@@ -196,6 +200,10 @@ fn parse_op(w: &str) -> Result<Op, String> {
         "wn" => Op::WSubscribe(a(0)?, a(1)?, a(2)?),
         "wl" => Op::WClosed(a(0)?, a(1)?),
         "wi" => Op::WInfo(a(0)?, a(1)?),
+        "dg" => Op::Downgrade(a(0)?),
+        "mg" => Op::Merge(a(0)?),
+        "sp" => Op::Split(a(0)?, a(1)?),
+        "oi" => Op::OsIsClosed(a(0)?),
         _ => return Err(format!("bad op {w}")),
     })
 }
@@ -882,6 +890,59 @@ async fn run_ops_inner(p: Arc<Prog>, objs: Arc<Objs>, b: usize, is_task: bool) -
                     shuttle::future::block_on(tx.closed());
                 }
                 log_op(111, &[]);
+            }
+            Op::Downgrade(w) => {
+                let n = rw_max(&p.obj_specs[w]);
+                let Some(idx) = held.iter().rposition(|h| h.0 == w) else { misuse!() };
+                if !matches!(held[idx].2, Held::WG(..)) || n <= 1 {
+                    misuse!()
+                }
+                let (_, _, h) = held.remove(idx);
+                if let Held::WG(g, _) = h {
+                    held.push((w, 1, Held::RG(g.downgrade())));
+                }
+                log_op(113, &[]);
+            }
+            Op::Merge(s) => {
+                if !matches!(o.objs.get(s), Some(Obj::Sem(_))) {
+                    misuse!()
+                }
+                let Some(i1) = held.iter().rposition(|h| h.0 == s) else { misuse!() };
+                let Some(i2) = held[..i1].iter().rposition(|h| h.0 == s) else { misuse!() };
+                let (_, n1, h1) = held.remove(i1);
+                let (_, n2, h2) = held.remove(i2);
+                if let (Held::Permit(p1), Held::Permit(mut p2)) = (h1, h2) {
+                    p2.merge(p1);
+                    assert_eq!(p2.num_permits() as u64, n1 + n2, "vharness: num_permits after merge");
+                    held.push((s, n1 + n2, Held::Permit(p2)));
+                }
+                log_op(114, &[n1 + n2]);
+            }
+            Op::Split(s, n) => {
+                if !matches!(o.objs.get(s), Some(Obj::Sem(_))) {
+                    misuse!()
+                }
+                let Some(idx) = held.iter().rposition(|h| h.0 == s) else { misuse!() };
+                let mut newp = None;
+                if let (_, k, Held::Permit(pm)) = &mut held[idx] {
+                    if let Some(p2) = pm.split(n) {
+                        *k -= n as u64;
+                        assert_eq!(pm.num_permits() as u64, *k, "vharness: num_permits after split");
+                        newp = Some(p2);
+                    }
+                }
+                match newp {
+                    Some(p2) => {
+                        held.push((s, n as u64, Held::Permit(p2)));
+                        log_op(115, &[1]);
+                    }
+                    None => log_op(115, &[0]),
+                }
+            }
+            Op::OsIsClosed(ob) => {
+                let c = obj!(ob, Obj::Oneshot);
+                let Some(tx) = (unsafe { &*c.tx.get() }).as_ref() else { misuse!() };
+                log_op(116, &[tx.is_closed() as u64]);
             }
             Op::WInfo(ob, slot) => {
                 let c = obj!(ob, Obj::Watch);
